@@ -221,6 +221,15 @@ def oracle(run: runner.Run, oc: Outcome) -> None:
                         continue  # superseded by another cause: legitimately abandoned
                     if allspecs[hid].get('subs'):
                         continue  # parents are finalised by their children; judged by clause D
+                    if '/' in hid:
+                        # the sub-handlers of a parent that has given up for good (now, or as recorded) are abandoned
+                        # with it: the parent's code, which declares them, is not going to run again
+                        parent = hid.rsplit('/', 1)[0]
+                        prec = judged.get(st.key_name(parent)) or {}
+                        gave_up = bool(prec.get('failure')) or any(
+                            c.hid == parent and c.outcome == 'perm' and c.seq1 is not None and c.seq1 <= w.seq for c in s.calls)
+                        if gave_up:
+                            continue
                     oc.add('C02/closed-early', 'unfinished-record-purged',
                            f"the progress record of handler {hid} ({rec}) was removed from {uid} in a "
                            f"{s.reason} step (view rv={s.rv}) although the handler had not finished", uid=uid, hid=hid)
@@ -237,7 +246,7 @@ def oracle(run: runner.Run, oc: Outcome) -> None:
                                    f"nor a final outcome in this step", uid=uid, hid=hid)
                 # ---------------- D. parents after children ----------------
                 for key, rec in after_recs.items():
-                    if common.finished(rec) and rec.get('subrefs'):
+                    if common.finished(rec) and rec.get('subrefs') and not rec.get('failure'):
                         for sub in rec['subrefs']:
                             subrec = after_recs.get(st.key_name(sub))
                             if not common.finished(subrec):
